@@ -22,3 +22,6 @@ Proof. exact coh_zero_case. Qed.
 Print Assumptions C13_layout_independent.
 Print Assumptions C13_sanitize_all_finite.
 Print Assumptions C13_coherence_guard.
+Print Assumptions C13_two_by_two_is_rows.
+Print Assumptions C13_sanitize_keeps_finite.
+Print Assumptions C13_result_equals_zero_filled.
